@@ -1,6 +1,1470 @@
-//! C11 — not built yet.
-use crate::report::{Ctx, Reporter};
+//! C11 — requests are isolated: nothing from an earlier request is visible in a later one,
+//! even though `HttpRequest` allocations are recycled through the per-worker pool.
+//!
+//! Oracle (differential / metamorphic): everything a middleware, a guard or a handler can read
+//! from the request while request k runs inside a *history* (2–400 requests through ONE service
+//! instance) must equal what the same code reads when the same request is the only one ever sent
+//! to a freshly built, identical service.  The observation is a line-by-line dump taken at every
+//! site the request passes (app middleware before routing and after the handler, guards, scope
+//! middleware, handler / default service).
+//!
+//! Pool reuse is confirmed, not assumed: the address of `req.match_info()` (a field of the pooled
+//! allocation) is recorded per request and compared with a LIFO/cap-128 model of the pool that the
+//! harness maintains from the drops it controls.  A shard also runs a *fingerprint* probe (release
+//! 40 live requests in a random order, the next 40 must come back in exactly the reverse order —
+//! which a malloc free list does not reproduce); no confirmed reuse ⇒ inconclusive.
+//!
+//! Mode "svc": `test::init_service` + `call_service`.  Mode "stack": the real `HttpService` with
+//! `on_connect_ext` over in-memory sockets, several connections with different connection data.
 
-pub fn run(_ctx: &Ctx, rep: &mut Reporter) {
-    rep.inconclusive("C11 monitor not built");
+use std::{
+    cell::{Cell, RefCell},
+    collections::{BTreeMap, HashMap, HashSet},
+    net::SocketAddr,
+    panic::AssertUnwindSafe,
+    rc::Rc,
+    time::Duration,
+};
+
+use actix_http::{body::BoxBody, Extensions, HttpService, KeepAlive, Protocol, Request};
+use actix_service::{map_config, Service, ServiceFactory};
+use actix_web::{
+    dev::{AppConfig, ServiceRequest, ServiceResponse},
+    guard,
+    http::{header::HeaderMap, Method, Version},
+    test, web, App, Error, HttpMessage, HttpRequest, HttpResponse,
+};
+use futures_util::FutureExt as _;
+use serde_json::{json, Value};
+
+use crate::{
+    report::{guard as pguard, panic_site, Ctx, Reporter},
+    util::Rng,
+    world::{
+        exec::{run_virtual, settle, Driven},
+        io::{script_io, IoHandle, ScriptIo},
+    },
+};
+
+const POOL_CAP: usize = 128;
+const ALL: usize = 1_000_000;
+
+// ------------------------------------------------------------------------------------------------
+// marker types
+// ------------------------------------------------------------------------------------------------
+
+/// Liveness token: lets the harness count how many values of a kind are still alive.
+struct Tok(Rc<Cell<i64>>);
+impl Tok {
+    fn new(c: &Rc<Cell<i64>>) -> Tok {
+        c.set(c.get() + 1);
+        Tok(c.clone())
+    }
+}
+impl Drop for Tok {
+    fn drop(&mut self) {
+        self.0.set(self.0.get() - 1);
+    }
+}
+
+struct ExtA(String, #[allow(dead_code)] Tok);
+struct ExtB(String, #[allow(dead_code)] Tok);
+struct ExtC(String, #[allow(dead_code)] Tok);
+struct ExtD(String, #[allow(dead_code)] Tok);
+struct PlainA(&'static str);
+struct PlainB(&'static str);
+struct PlainC(&'static str);
+struct DA(&'static str);
+struct DB(&'static str);
+struct ConnTag(u32, #[allow(dead_code)] Tok);
+struct ConnExtra(u32);
+
+#[derive(Default)]
+struct Shared {
+    /// observation lines of the request in flight: "site|key=value"
+    log: RefCell<Vec<String>>,
+    /// address of `match_info()` as seen by the app-level middleware (0: request never arrived)
+    addr: Cell<usize>,
+    /// clones of `HttpRequest` kept alive by handlers (`x-hold`)
+    stash: RefCell<Vec<HttpRequest>>,
+    /// stack mode: tag given to the next connection by `on_connect_ext`
+    next_conn: Cell<u32>,
+    /// number of request-local extension values (ExtA..ExtD) currently alive
+    ext_live: Rc<Cell<i64>>,
+    /// number of on-connect data containers (ConnTag) currently alive
+    conn_live: Rc<Cell<i64>>,
+}
+type Sh = Rc<Shared>;
+
+fn put(o: &mut Vec<String>, site: &str, key: &str, val: &str) {
+    o.push(format!("{site}|{key}={val}"));
+}
+
+fn fmt_headers(h: &HeaderMap) -> String {
+    let mut names: Vec<String> = h.keys().map(|k| k.as_str().to_string()).collect();
+    names.sort();
+    names.dedup();
+    let mut s = String::new();
+    for n in names {
+        let vals: Vec<String> = h.get_all(n.as_str()).map(|v| String::from_utf8_lossy(v.as_bytes()).into_owned()).collect();
+        s.push_str(&format!("{n}:[{}] ", vals.join("|")));
+    }
+    s
+}
+
+fn fmt_ext(e: &Extensions) -> String {
+    format!(
+        "A={:?} B={:?} C={:?} D={:?}",
+        e.get::<ExtA>().map(|x| x.0.as_str()),
+        e.get::<ExtB>().map(|x| x.0.as_str()),
+        e.get::<ExtC>().map(|x| x.0.as_str()),
+        e.get::<ExtD>().map(|x| x.0.as_str())
+    )
+}
+
+/// Everything reachable from an `HttpRequest` / `ServiceRequest` (same method names on both).
+macro_rules! dump_req {
+    ($o:expr, $site:expr, $r:expr) => {{
+        let o: &mut Vec<String> = $o;
+        let site: &str = $site;
+        let r = $r;
+        put(o, site, "method", r.method().as_str());
+        put(o, site, "uri", &r.uri().to_string());
+        put(o, site, "path", r.path());
+        put(o, site, "query", r.query_string());
+        put(o, site, "version", &format!("{:?}", r.version()));
+        put(o, site, "headers", &fmt_headers(r.headers()));
+        put(o, site, "peer", &format!("{:?}", r.peer_addr()));
+        {
+            let mi = r.match_info();
+            let items: Vec<String> = mi.iter().map(|(k, v)| format!("{k}={v}")).collect();
+            put(
+                o,
+                site,
+                "match_info",
+                &format!("path={} unprocessed={} n={} [{}]", mi.as_str(), mi.unprocessed(), mi.segment_count(), items.join(",")),
+            );
+        }
+        put(o, site, "match_name", &format!("{:?}", r.match_name()));
+        put(o, site, "match_pattern", &format!("{:?}", r.match_pattern()));
+        {
+            let e = r.extensions();
+            put(o, site, "ext", &fmt_ext(&e));
+        }
+        put(
+            o,
+            site,
+            "conn_data",
+            &format!("tag={:?} extra={:?}", r.conn_data::<ConnTag>().map(|t| t.0), r.conn_data::<ConnExtra>().map(|t| t.0)),
+        );
+        put(
+            o,
+            site,
+            "app_data",
+            &format!(
+                "A={:?} B={:?} C={:?} DA={:?} DB={:?}",
+                r.app_data::<PlainA>().map(|x| x.0),
+                r.app_data::<PlainB>().map(|x| x.0),
+                r.app_data::<PlainC>().map(|x| x.0),
+                r.app_data::<web::Data<DA>>().map(|x| x.0),
+                r.app_data::<web::Data<DB>>().map(|x| x.0)
+            ),
+        );
+        {
+            let ci = r.connection_info();
+            put(
+                o,
+                site,
+                "conn_info",
+                &format!("scheme={} host={} peer={:?} realip={:?}", ci.scheme(), ci.host(), ci.peer_addr(), ci.realip_remote_addr()),
+            );
+        }
+        match r.cookies() {
+            Ok(c) => {
+                let v: Vec<String> = c.iter().map(|c| format!("{}={}", c.name(), c.value())).collect();
+                put(o, site, "cookies", &v.join(";"));
+            }
+            Err(e) => put(o, site, "cookies", &format!("err {e}")),
+        }
+        match r.cookies_raw() {
+            Ok(c) => {
+                let v: Vec<String> = c.iter().map(|c| format!("{}={}", c.name(), c.value())).collect();
+                put(o, site, "cookies_raw", &v.join(";"));
+            }
+            Err(e) => put(o, site, "cookies_raw", &format!("err {e}")),
+        }
+    }};
+}
+
+fn dump_guard(sh: &Shared, site: &str, ctx: &guard::GuardContext<'_>) {
+    let mut log = sh.log.borrow_mut();
+    let o = &mut *log;
+    let h = ctx.head();
+    put(o, site, "method", h.method.as_str());
+    put(o, site, "uri", &h.uri.to_string());
+    put(o, site, "headers", &fmt_headers(&h.headers));
+    put(o, site, "peer", &format!("{:?}", h.peer_addr));
+    {
+        let e = ctx.req_data();
+        put(o, site, "ext", &fmt_ext(&e));
+    }
+    put(
+        o,
+        site,
+        "app_data",
+        &format!(
+            "A={:?} B={:?} C={:?} DA={:?} DB={:?}",
+            ctx.app_data::<PlainA>().map(|x| x.0),
+            ctx.app_data::<PlainB>().map(|x| x.0),
+            ctx.app_data::<PlainC>().map(|x| x.0),
+            ctx.app_data::<web::Data<DA>>().map(|x| x.0),
+            ctx.app_data::<web::Data<DB>>().map(|x| x.0)
+        ),
+    );
+}
+
+fn hdr<'a>(h: &'a HeaderMap, name: &str) -> Option<&'a str> {
+    h.get(name).and_then(|v| v.to_str().ok())
+}
+
+fn insert_exts(e: &mut Extensions, bits: u32, who: &str, id: &str, live: &Rc<Cell<i64>>) {
+    if bits & 1 != 0 {
+        e.insert(ExtA(format!("{who}:{id}"), Tok::new(live)));
+    }
+    if bits & 2 != 0 {
+        e.insert(ExtB(format!("{who}:{id}"), Tok::new(live)));
+    }
+    if bits & 4 != 0 {
+        e.insert(ExtC(format!("{who}:{id}"), Tok::new(live)));
+    }
+}
+
+/// Body of every handler and default service: dump, then do what the request's own headers ask
+/// for (so behaviour is a function of the request alone).
+fn handle(sh: &Shared, req: &HttpRequest, tag: &'static str) -> Result<HttpResponse, Error> {
+    {
+        let mut log = sh.log.borrow_mut();
+        dump_req!(&mut *log, &format!("h:{tag}"), req);
+    }
+    let id = hdr(req.headers(), "x-id").unwrap_or("-").to_string();
+    if let Some(bits) = hdr(req.headers(), "x-h-ext").and_then(|v| v.parse::<u32>().ok()) {
+        insert_exts(&mut req.extensions_mut(), bits, "h", &id, &sh.ext_live);
+    }
+    if hdr(req.headers(), "x-hold").is_some() {
+        sh.stash.borrow_mut().push(req.clone());
+    }
+    if hdr(req.headers(), "x-fail").is_some() {
+        return Err(actix_web::error::ErrorBadRequest("asked to fail"));
+    }
+    Ok(HttpResponse::Ok().body(tag))
+}
+
+fn h(sh: &Sh, tag: &'static str) -> impl Fn(HttpRequest) -> std::future::Ready<Result<HttpResponse, Error>> + Clone + 'static {
+    let sh = sh.clone();
+    move |req: HttpRequest| std::future::ready(handle(&sh, &req, tag))
+}
+
+fn allow_guard(sh: &Sh, site: &'static str) -> impl guard::Guard {
+    let sh = sh.clone();
+    guard::fn_guard(move |ctx: &guard::GuardContext<'_>| {
+        dump_guard(&sh, site, ctx);
+        ctx.head().headers.contains_key("x-allow")
+    })
+}
+
+fn build_app(
+    sh: Sh,
+) -> App<impl ServiceFactory<ServiceRequest, Config = (), Response = ServiceResponse<BoxBody>, Error = Error, InitError = ()>> {
+    let sh_mw0 = sh.clone();
+    let sh_mw1 = sh.clone();
+    let sh_y = sh.clone();
+    let sh_num = sh.clone();
+    App::new()
+        .app_data(PlainA("app"))
+        .app_data(web::Data::new(DA("app")))
+        .service(web::resource("/").name("index").to(h(&sh, "index")))
+        .service(web::resource("/u/{id}").name("user").to(h(&sh, "user")))
+        .service(
+            web::resource("/u/{id}/p/{post}")
+                .name("post")
+                .app_data(PlainC("post"))
+                .route(web::get().to(h(&sh, "post-get")))
+                .route(web::post().to(h(&sh, "post-post"))),
+        )
+        .service(web::resource("/f/{tail:.*}").name("tail").to(h(&sh, "tail")))
+        .service(web::resource("/num/{n}").name("num").to(move |p: web::Path<u32>, req: HttpRequest| {
+            sh_num.log.borrow_mut().push(format!("h:num|extracted={}", p.into_inner()));
+            std::future::ready(handle(&sh_num, &req, "num"))
+        }))
+        .service(web::resource("/g/{x}").name("guarded").guard(allow_guard(&sh, "g:res")).to(h(&sh, "guarded")))
+        .service(
+            web::scope("/s1")
+                .app_data(PlainA("s1"))
+                .app_data(PlainB("s1"))
+                .app_data(web::Data::new(DA("s1")))
+                .app_data(web::Data::new(DB("s1")))
+                .service(web::resource("/r/{x}").name("s1r").app_data(PlainA("s1r")).app_data(PlainC("s1r")).to(h(&sh, "s1r")))
+                .service(web::resource("/q").name("s1q").to(move |req: HttpRequest| {
+                    let sh = sh_y.clone();
+                    async move {
+                        tokio::task::yield_now().await;
+                        handle(&sh, &req, "s1q")
+                    }
+                }))
+                .service(
+                    web::scope("/n/{ns}")
+                        .app_data(PlainB("s1n"))
+                        .service(web::resource("/{a}/{b}").name("s1n").to(h(&sh, "s1n"))),
+                )
+                .wrap_fn(move |req: ServiceRequest, srv| {
+                    {
+                        let mut log = sh_mw1.log.borrow_mut();
+                        dump_req!(&mut *log, "mw1-pre", &req);
+                    }
+                    srv.call(req)
+                }),
+        )
+        .service(
+            web::scope("/s2/{tenant}")
+                .guard(allow_guard(&sh, "g:s2"))
+                .app_data(PlainB("s2"))
+                .app_data(web::Data::new(DB("s2")))
+                .service(web::resource("/item/{id}").name("s2item").route(web::get().to(h(&sh, "s2item"))))
+                .default_service(web::to(h(&sh, "s2def"))),
+        )
+        .default_service(web::to(h(&sh, "appdef")))
+        .wrap_fn(move |req: ServiceRequest, srv| {
+            let sh = sh_mw0.clone();
+            sh.addr.set(req.match_info() as *const _ as usize);
+            {
+                let mut log = sh.log.borrow_mut();
+                dump_req!(&mut *log, "mw0-pre", &req);
+            }
+            let id = hdr(req.headers(), "x-id").unwrap_or("-").to_string();
+            if let Some(bits) = hdr(req.headers(), "x-mw-ext").and_then(|v| v.parse::<u32>().ok()) {
+                insert_exts(&mut req.extensions_mut(), bits, "mw", &id, &sh.ext_live);
+            }
+            let early = if hdr(req.headers(), "x-mw-deny").is_some() {
+                Ok(req.into_response(HttpResponse::Forbidden().finish()))
+            } else {
+                Err(srv.call(req))
+            };
+            async move {
+                let res: ServiceResponse<BoxBody> = match early {
+                    Ok(r) => r,
+                    Err(f) => f.await?,
+                };
+                {
+                    let mut log = sh.log.borrow_mut();
+                    dump_req!(&mut *log, "mw0-post", res.request());
+                    put(&mut log, "mw0-post", "status", &res.status().as_u16().to_string());
+                }
+                Ok(res)
+            }
+        })
+}
+
+// ------------------------------------------------------------------------------------------------
+// requests, palettes, histories
+// ------------------------------------------------------------------------------------------------
+
+#[derive(Clone, Debug, PartialEq)]
+struct Rq {
+    method: String,
+    target: String,
+    /// 0: HTTP/1.1, 1: HTTP/1.0, 2: HTTP/2 (svc mode only)
+    version: u8,
+    headers: Vec<(String, String)>,
+    /// svc mode: index of the peer address given to TestRequest (stack mode: the connection's)
+    peer: Option<u8>,
+    /// svc mode: request-level extension already present on the actix-http `Request`
+    pre_ext: bool,
+    /// abstract kind (route class + flags), evidence only
+    kind: String,
+    route: String,
+}
+
+impl Rq {
+    fn to_json(&self) -> Value {
+        json!({"method": self.method, "target": self.target, "version": self.version,
+               "headers": self.headers.iter().map(|(k, v)| json!([k, v])).collect::<Vec<_>>(),
+               "peer": self.peer, "pre_ext": self.pre_ext, "kind": self.kind, "route": self.route})
+    }
+    fn from_json(v: &Value) -> Option<Rq> {
+        Some(Rq {
+            method: v["method"].as_str()?.to_string(),
+            target: v["target"].as_str()?.to_string(),
+            version: v["version"].as_u64()? as u8,
+            headers: v["headers"]
+                .as_array()?
+                .iter()
+                .filter_map(|p| Some((p[0].as_str()?.to_string(), p[1].as_str()?.to_string())))
+                .collect(),
+            peer: v["peer"].as_u64().map(|x| x as u8),
+            pre_ext: v["pre_ext"].as_bool().unwrap_or(false),
+            kind: v["kind"].as_str().unwrap_or("?").to_string(),
+            route: v["route"].as_str().unwrap_or("?").to_string(),
+        })
+    }
+    fn has(&self, name: &str) -> bool {
+        self.headers.iter().any(|(k, _)| k == name)
+    }
+}
+
+const VALS: &[&str] = &["a", "bob", "x%20y", "%41lice", "caf%C3%A9", "17", "a+b", "q-0123456789-0123456789-0123456789", "z%2Fz", "~t"];
+const HOSTS: &[&str] = &["h1.test", "h2.test:8080", "third.example"];
+
+fn gen_rq(rng: &mut Rng, stack: bool) -> Rq {
+    let v = |rng: &mut Rng| *rng.pick(VALS);
+    let mut method = "GET".to_string();
+    let mut allow = false;
+    let (route, mut target): (&str, String) = match rng.below(18) {
+        0 => ("index", "/".into()),
+        1 => ("user", format!("/u/{}", v(rng))),
+        2 => {
+            method = rng.pick(&["GET", "POST", "DELETE"]).to_string();
+            (if method == "DELETE" { "post-405" } else { "post" }, format!("/u/{}/p/{}", v(rng), v(rng)))
+        }
+        3 => ("tail", format!("/f/{}/{}", v(rng), v(rng))),
+        4 => ("num-ok", format!("/num/{}", rng.below(1000))),
+        5 => ("num-bad", format!("/num/{}", v(rng))),
+        6 => {
+            allow = true;
+            ("guarded-ok", format!("/g/{}", v(rng)))
+        }
+        7 => ("guarded-fail", format!("/g/{}", v(rng))),
+        8 => ("s1r", format!("/s1/r/{}", v(rng))),
+        9 => ("s1q", "/s1/q".into()),
+        10 => ("s1n", format!("/s1/n/{}/{}/{}", v(rng), v(rng), v(rng))),
+        11 => ("s1-404", format!("/s1/zz/{}", v(rng))),
+        12 => {
+            allow = true;
+            ("s2item", format!("/s2/{}/item/{}", v(rng), v(rng)))
+        }
+        13 => ("s2-guardfail", format!("/s2/{}/item/{}", v(rng), v(rng))),
+        14 => {
+            allow = true;
+            ("s2def", format!("/s2/{}/other/{}", v(rng), v(rng)))
+        }
+        15 => {
+            allow = true;
+            method = "POST".into();
+            ("s2-405", format!("/s2/{}/item/{}", v(rng), v(rng)))
+        }
+        16 => ("notfound", format!("/nope/{}", v(rng))),
+        _ => ("abs-user", format!("http://abs.test/u/{}", v(rng))),
+    };
+    if rng.chance(1, 3) {
+        target.push_str(&format!("?k={}&id={}", v(rng), rng.below(50)));
+    }
+    let mut headers: Vec<(String, String)> = vec![];
+    headers.push(("host".into(), rng.pick(HOSTS).to_string()));
+    headers.push(("x-id".into(), format!("id{}", rng.below(24))));
+    if allow {
+        headers.push(("x-allow".into(), "1".into()));
+    }
+    let mut flags = String::new();
+    if rng.chance(1, 2) {
+        headers.push(("x-mw-ext".into(), rng.range(1, 7).to_string()));
+        flags.push('x');
+    }
+    if rng.chance(1, 3) {
+        headers.push(("x-h-ext".into(), rng.range(1, 7).to_string()));
+        if !flags.contains('x') {
+            flags.push('x');
+        }
+    }
+    if rng.chance(1, 4) {
+        headers.push(("x-hold".into(), "1".into()));
+        flags.push('h');
+    }
+    let mut route_s = route.to_string();
+    if rng.chance(1, 12) {
+        headers.push(("x-mw-deny".into(), "1".into()));
+        route_s = format!("{route}!deny");
+    } else if rng.chance(1, 10) {
+        headers.push(("x-fail".into(), "1".into()));
+        route_s = format!("{route}!err");
+    }
+    if rng.chance(1, 3) {
+        headers.push(("cookie".into(), rng.pick(&["sid=abc; t=1", "a=%20b", "u=bob; theme=dark; k=v"]).to_string()));
+        if rng.chance(1, 3) {
+            headers.push(("cookie".into(), "second=2".into()));
+        }
+    }
+    if rng.chance(1, 4) {
+        match rng.below(3) {
+            0 => headers.push(("x-forwarded-host".into(), format!("fwd{}.test", rng.below(4)))),
+            1 => {
+                headers.push(("forwarded".into(), format!("for=192.0.2.{};proto=https;host=f{}.test", rng.below(200), rng.below(4))));
+            }
+            _ => {
+                headers.push(("x-forwarded-proto".into(), "https".into()));
+                headers.push(("x-forwarded-for".into(), format!("203.0.113.{}", rng.below(200))));
+            }
+        }
+    }
+    if method == "POST" {
+        headers.push(("content-length".into(), "0".into()));
+    }
+    let version = if stack {
+        0
+    } else {
+        *rng.pick(&[0u8, 0, 0, 1, 2])
+    };
+    let peer = if stack || rng.chance(1, 3) { None } else { Some(rng.below(4) as u8) };
+    let pre_ext = !stack && rng.chance(1, 4);
+    let kind = if flags.is_empty() { route_s.clone() } else { format!("{route_s}+{flags}") };
+    Rq { method, target, version, headers, peer, pre_ext, kind, route: route_s }
+}
+
+#[derive(Clone, Debug, PartialEq)]
+enum Step {
+    /// send palette entry `p`; svc mode: `retain` keeps the ServiceResponse (and its HttpRequest)
+    /// alive in the harness; stack mode: on connection slot `conn`
+    Send { p: usize, retain: bool, conn: usize },
+    /// drop the stashed clone at index i (mod len), ALL: every one, oldest first
+    RelStash(usize),
+    /// drop the retained response at index i (mod len), ALL: every one, oldest first
+    RelResp(usize),
+    /// stack mode: (re)open connection slot c
+    Open(usize),
+    /// stack mode: close connection slot c
+    Close(usize),
+}
+
+impl Step {
+    fn to_json(&self) -> Value {
+        match self {
+            Step::Send { p, retain, conn } => json!(["send", p, retain, conn]),
+            Step::RelStash(i) => json!(["rel-stash", i]),
+            Step::RelResp(i) => json!(["rel-resp", i]),
+            Step::Open(c) => json!(["open", c]),
+            Step::Close(c) => json!(["close", c]),
+        }
+    }
+    fn from_json(v: &Value) -> Option<Step> {
+        let n = |i: usize| v[i].as_u64().map(|x| x as usize);
+        Some(match v[0].as_str()? {
+            "send" => Step::Send { p: n(1)?, retain: v[2].as_bool()?, conn: n(3)? },
+            "rel-stash" => Step::RelStash(n(1)?),
+            "rel-resp" => Step::RelResp(n(1)?),
+            "open" => Step::Open(n(1)?),
+            "close" => Step::Close(n(1)?),
+            _ => return None,
+        })
+    }
+}
+
+#[derive(Clone, Debug)]
+struct Case {
+    stack: bool,
+    palette: Vec<Rq>,
+    steps: Vec<Step>,
+}
+
+impl Case {
+    fn to_json(&self) -> Value {
+        json!({"mode": if self.stack { "stack" } else { "svc" },
+               "palette": self.palette.iter().map(|r| r.to_json()).collect::<Vec<_>>(),
+               "steps": self.steps.iter().map(|s| s.to_json()).collect::<Vec<_>>()})
+    }
+    fn from_json(v: &Value) -> Option<Case> {
+        Some(Case {
+            stack: v["mode"].as_str()? == "stack",
+            palette: v["palette"].as_array()?.iter().filter_map(Rq::from_json).collect(),
+            steps: v["steps"].as_array()?.iter().filter_map(Step::from_json).collect(),
+        })
+    }
+}
+
+fn gen_case(rng: &mut Rng, stack: bool, miri: bool) -> Case {
+    let np = rng.range(3, if miri { 5 } else { 20 });
+    let palette: Vec<Rq> = (0..np).map(|_| gen_rq(rng, stack)).collect();
+    let nconn = rng.range(2, 4);
+    let mut steps = vec![];
+    let shape = if miri { 0 } else { rng.below(20) };
+    let send = |rng: &mut Rng, retain_p: usize| Step::Send {
+        p: rng.below(np),
+        retain: !stack && rng.chance(retain_p, 10),
+        conn: rng.below(nconn),
+    };
+    if shape == 19 || (shape == 18 && !stack) {
+        // burst beyond the pool: > 128 requests alive at once, released, then as many again
+        let n = rng.range(POOL_CAP + 1, POOL_CAP + 60);
+        let hold: Vec<usize> = (0..np).filter(|&i| palette[i].has("x-hold") && !palette[i].has("x-mw-deny")).collect();
+        for _ in 0..n {
+            if stack {
+                // only handler clones can keep a request alive behind a real connection
+                let p = if hold.is_empty() { rng.below(np) } else { *rng.pick(&hold) };
+                steps.push(Step::Send { p, retain: false, conn: rng.below(nconn) });
+            } else {
+                steps.push(Step::Send { p: rng.below(np), retain: true, conn: 0 });
+            }
+        }
+        if rng.chance(1, 2) {
+            steps.push(Step::RelResp(ALL));
+            steps.push(Step::RelStash(ALL));
+        } else {
+            for _ in 0..n {
+                steps.push(Step::RelResp(rng.below(n)));
+                steps.push(Step::RelStash(rng.below(n)));
+            }
+            steps.push(Step::RelResp(ALL));
+            steps.push(Step::RelStash(ALL));
+        }
+        for _ in 0..n {
+            steps.push(send(rng, 8));
+        }
+        steps.push(Step::RelResp(ALL));
+        for _ in 0..rng.range(2, 30) {
+            steps.push(send(rng, 2));
+        }
+    } else {
+        let len = match shape {
+            0..=7 => rng.range(2, 10),
+            8..=14 => rng.range(10, 60),
+            _ => rng.range(60, 400),
+        };
+        // a "run" makes consecutive sends retained so pops go deep into the pool
+        let mut run = 0usize;
+        while steps.len() < len {
+            if run > 0 {
+                run -= 1;
+                steps.push(send(rng, 10));
+                continue;
+            }
+            match rng.below(20) {
+                0..=12 => steps.push(send(rng, 2)),
+                13 => run = rng.range(2, 25),
+                14 | 15 => steps.push(Step::RelStash(if rng.chance(1, 4) { ALL } else { rng.below(64) })),
+                16 | 17 => steps.push(Step::RelResp(if rng.chance(1, 4) { ALL } else { rng.below(64) })),
+                18 if stack => steps.push(Step::Open(rng.below(nconn))),
+                19 if stack => steps.push(Step::Close(rng.below(nconn))),
+                _ => steps.push(send(rng, 2)),
+            }
+        }
+    }
+    Case { stack, palette, steps }
+}
+
+// ------------------------------------------------------------------------------------------------
+// executing a history
+// ------------------------------------------------------------------------------------------------
+
+#[derive(Clone, Debug)]
+struct Failure {
+    step: usize,
+    class: String,
+    signature: String,
+    detail: String,
+}
+
+#[derive(Default)]
+struct Out {
+    failure: Option<Failure>,
+    counters: BTreeMap<String, u64>,
+    maxes: BTreeMap<String, u64>,
+    sigs: HashSet<String>,
+    evals: u64,
+    /// address of every Send, in order
+    addrs: Vec<usize>,
+    inconclusive: Vec<String>,
+}
+
+impl Out {
+    fn count(&mut self, k: &str, n: u64) {
+        *self.counters.entry(k.to_string()).or_insert(0) += n;
+    }
+    fn max(&mut self, k: &str, v: u64) {
+        let e = self.maxes.entry(k.to_string()).or_insert(0);
+        *e = (*e).max(v);
+    }
+}
+
+/// The harness's model of the pool: LIFO, capacity 128, fed by the drops the harness controls.
+#[derive(Default)]
+struct PoolModel {
+    stack: Vec<usize>,
+    holders: HashMap<usize, u32>,
+    /// address -> (kind, connection tag) of the last request that ran on it
+    last: HashMap<usize, (String, u32)>,
+}
+
+impl PoolModel {
+    fn dropped(&mut self, addr: usize, out: &mut Out) {
+        if self.stack.len() < POOL_CAP {
+            self.stack.push(addr);
+            out.max("pool_depth", self.stack.len() as u64);
+        } else {
+            out.count("drops_with_pool_full", 1);
+            self.last.remove(&addr);
+        }
+    }
+    fn release(&mut self, addr: usize, out: &mut Out) {
+        let h = self.holders.entry(addr).or_insert(1);
+        *h = h.saturating_sub(1);
+        if *h == 0 {
+            self.holders.remove(&addr);
+            self.dropped(addr, out);
+        }
+    }
+    /// Called for each request: `addr` observed; returns the predecessor on a confirmed reuse.
+    fn arrived(&mut self, addr: usize, out: &mut Out) -> Option<(String, u32)> {
+        let depth = self.stack.len();
+        match self.stack.pop() {
+            Some(e) if e == addr => {
+                out.count("recycled_confirmed", 1);
+                if depth >= 9 {
+                    out.count("recycled_confirmed_pool_depth_ge9", 1);
+                }
+                self.last.get(&addr).cloned()
+            }
+            Some(e) => {
+                // the model is not the pool: resynchronise, never judge
+                out.count("pool_model_mismatch", 1);
+                self.stack.push(e);
+                self.stack.retain(|&a| a != addr);
+                None
+            }
+            None => {
+                out.count("fresh_allocation", 1);
+                None
+            }
+        }
+    }
+}
+
+fn compare(obs: &[String], reference: &[String]) -> Option<(String, String, String)> {
+    let n = obs.len().max(reference.len());
+    for i in 0..n {
+        let a = obs.get(i).map(|s| s.as_str()).unwrap_or("<missing>");
+        let b = reference.get(i).map(|s| s.as_str()).unwrap_or("<missing>");
+        if a != b {
+            let which = if a == "<missing>" { b } else { a };
+            let sitekey = which.split('=').next().unwrap_or(which).to_string();
+            return Some((sitekey, a.to_string(), b.to_string()));
+        }
+    }
+    None
+}
+
+fn key_class(sitekey: &str) -> &'static str {
+    let key = sitekey.rsplit('|').next().unwrap_or("");
+    match key {
+        "ext" => "extensions",
+        "app_data" => "app_data",
+        "conn_data" => "conn_data",
+        "match_info" | "extracted" => "match_info",
+        "match_name" | "match_pattern" => "matched_resource",
+        "conn_info" => "connection_info",
+        "cookies" | "cookies_raw" => "cookies",
+        "status" => "outcome",
+        "method" | "uri" | "path" | "query" | "version" | "headers" | "peer" => "head",
+        _ => "trace",
+    }
+}
+
+fn peer_addr(i: u32) -> SocketAddr {
+    format!("10.0.{}.{}:{}", i / 200, 1 + i % 200, 4000 + i).parse().unwrap()
+}
+
+fn to_request(rq: &Rq, sh: &Shared) -> Request {
+    let mut t = test::TestRequest::default()
+        .method(Method::from_bytes(rq.method.as_bytes()).unwrap_or(Method::GET))
+        .uri(&rq.target)
+        .version(match rq.version {
+            1 => Version::HTTP_10,
+            2 => Version::HTTP_2,
+            _ => Version::HTTP_11,
+        });
+    for (k, v) in &rq.headers {
+        t = t.append_header((k.as_str(), v.as_str()));
+    }
+    if let Some(p) = rq.peer {
+        t = t.peer_addr(peer_addr(p as u32));
+    }
+    let req = t.to_request();
+    if rq.pre_ext {
+        let id = rq.headers.iter().find(|(k, _)| k == "x-id").map(|(_, v)| v.clone()).unwrap_or_default();
+        req.extensions_mut().insert(ExtD(format!("pre:{id}"), Tok::new(&sh.ext_live)));
+    }
+    req
+}
+
+fn to_wire(rq: &Rq) -> Vec<u8> {
+    let mut s = format!("{} {} HTTP/1.1\r\n", rq.method, rq.target);
+    for (k, v) in &rq.headers {
+        s.push_str(&format!("{k}: {v}\r\n"));
+    }
+    s.push_str("\r\n");
+    s.into_bytes()
+}
+
+fn panic_text(payload: Box<dyn std::any::Any + Send>) -> String {
+    // the hook has stored "msg @ file:line"; resume_unwind does not run the hook again
+    match pguard(move || std::panic::resume_unwind(payload)) {
+        Err(m) => m,
+        Ok(()) => "panic".into(),
+    }
+}
+
+/// One request through a svc-mode service: (observation lines, response kept alive).
+async fn svc_send<S>(svc: &S, sh: &Sh, rq: &Rq) -> Result<(Vec<String>, ServiceResponse<BoxBody>), String>
+where
+    S: Service<Request, Response = ServiceResponse<BoxBody>, Error = Error>,
+{
+    sh.log.borrow_mut().clear();
+    sh.addr.set(0);
+    let req = to_request(rq, sh);
+    match AssertUnwindSafe(test::call_service(svc, req)).catch_unwind().await {
+        Ok(resp) => {
+            let mut lines = std::mem::take(&mut *sh.log.borrow_mut());
+            put(&mut lines, "resp", "status", &resp.status().as_u16().to_string());
+            Ok((lines, resp))
+        }
+        Err(p) => Err(panic_text(p)),
+    }
+}
+
+async fn svc_reference(rq: &Rq) -> Result<Vec<String>, String> {
+    let sh: Sh = Rc::new(Shared::default());
+    let svc = test::init_service(build_app(sh.clone())).await;
+    let (lines, resp) = svc_send(&svc, &sh, rq).await?;
+    drop(resp);
+    sh.stash.borrow_mut().clear();
+    Ok(lines)
+}
+
+type ConnFut = Driven<Result<(), actix_http::error::DispatchError>>;
+
+struct Conn {
+    d: ConnFut,
+    h: IoHandle,
+    tag: u32,
+    out_seen: usize,
+}
+
+type Opener = Box<dyn Fn(ScriptIo, SocketAddr) -> ConnFut>;
+
+/// The real `HttpService` (h1 dispatcher, `on_connect_ext`) around the same app; returns a closure
+/// that starts one connection on a scripted socket.
+async fn stack_service(sh: Sh) -> Opener {
+    let sh2 = sh.clone();
+    let factory = HttpService::build()
+        .keep_alive(KeepAlive::Timeout(Duration::from_secs(1_000_000)))
+        .client_request_timeout(Duration::ZERO)
+        .client_disconnect_timeout(Duration::ZERO)
+        .on_connect_ext(move |_io: &ScriptIo, ext: &mut Extensions| {
+            let t = sh2.next_conn.get();
+            ext.insert(ConnTag(t, Tok::new(&sh2.conn_live)));
+            if t % 2 == 1 {
+                ext.insert(ConnExtra(t * 100 + 7));
+            }
+        })
+        .finish(map_config(build_app(sh), |_| AppConfig::default()));
+    let svc = factory.new_service(()).await.expect("service init");
+    Box::new(move |io, addr| Driven::new(svc.call((io, Protocol::Http1, Some(addr)))))
+}
+
+fn stack_open(open: &Opener, sh: &Sh, tag: u32) -> Conn {
+    let (io, h) = script_io();
+    sh.next_conn.set(tag);
+    let d = open(io, peer_addr(tag));
+    Conn { d, h, tag, out_seen: 0 }
+}
+
+async fn stack_send(c: &mut Conn, sh: &Sh, rq: &Rq) -> Result<Vec<String>, String> {
+    sh.log.borrow_mut().clear();
+    sh.addr.set(0);
+    c.h.push(&to_wire(rq));
+    match AssertUnwindSafe(settle(&mut c.d, 10_000)).catch_unwind().await {
+        Ok(_) => {}
+        Err(p) => return Err(panic_text(p)),
+    }
+    let mut lines = std::mem::take(&mut *sh.log.borrow_mut());
+    let out = c.h.out();
+    let new = &out[c.out_seen.min(out.len())..];
+    let status = if new.len() >= 12 && new.starts_with(b"HTTP/1.") { String::from_utf8_lossy(&new[9..12]).into_owned() } else { "none".into() };
+    c.out_seen = out.len();
+    put(&mut lines, "resp", "status", &status);
+    Ok(lines)
+}
+
+async fn stack_reference(rq: &Rq, tag: u32) -> Result<Vec<String>, String> {
+    let sh: Sh = Rc::new(Shared::default());
+    let svc = stack_service(sh.clone()).await;
+    let mut c = stack_open(&svc, &sh, tag);
+    let lines = stack_send(&mut c, &sh, rq).await?;
+    c.h.eof();
+    let _ = settle(&mut c.d, 1000).await;
+    drop(c);
+    sh.stash.borrow_mut().clear();
+    Ok(lines)
+}
+
+fn mk_failure(step: usize, rq: &Rq, pred: &Option<(String, u32)>, diff: (String, String, String), mode: &str) -> Failure {
+    let (sitekey, got, want) = diff;
+    Failure {
+        step,
+        class: format!("history-dependent/{}", key_class(&sitekey)),
+        signature: format!("{mode} at={sitekey}"),
+        detail: format!(
+            "request `{} {}` ({}) observed inside the history differs from the same request on a fresh service at {sitekey}: in history `{got}`, fresh `{want}`; recycled object last used by {:?}",
+            rq.method, rq.target, rq.kind, pred
+        ),
+    }
+}
+
+#[allow(dead_code)]
+fn lifetime_failure(step: usize, mode: &str, what: &str, live: i64, allowed: i64) -> Failure {
+    Failure {
+        step,
+        class: "lifetime/request-data-outlives-request".into(),
+        signature: format!("{mode} {what}"),
+        detail: format!(
+            "no handle to any earlier request is alive any more, yet {live} {what} value(s) of finished requests are still alive (expected {allowed}): data of an earlier request is retained by a recycled request object"
+        ),
+    }
+}
+
+async fn run_case(case: Case) -> Out {
+    let mut out = Out::default();
+    let mut refs: HashMap<(usize, u32), Vec<String>> = HashMap::new();
+    let mut model = PoolModel::default();
+    let sh: Sh = Rc::new(Shared::default());
+    let mode = if case.stack { "stack" } else { "svc" };
+    out.count(&format!("histories:{mode}"), 1);
+    let nsend = case.steps.iter().filter(|s| matches!(s, Step::Send { .. })).count();
+    out.max("history_sends", nsend as u64);
+
+    // addresses parallel to sh.stash / retained
+    let mut stash_addrs: Vec<usize> = vec![];
+    let mut retained: Vec<(ServiceResponse<BoxBody>, usize)> = vec![];
+
+    macro_rules! fail {
+        ($f:expr) => {{
+            out.failure = Some($f);
+            // tear down quietly; a panic here is reported by the caller's guard
+            retained.clear();
+            sh.stash.borrow_mut().clear();
+            return out;
+        }};
+    }
+
+    if !case.stack {
+        let svc = test::init_service(build_app(sh.clone())).await;
+        for (idx, step) in case.steps.iter().enumerate() {
+            match step {
+                Step::Send { p, retain, .. } => {
+                    let Some(rq) = case.palette.get(*p) else { continue };
+                    if !refs.contains_key(&(*p, 0)) {
+                        match svc_reference(rq).await {
+                            Ok(l) => {
+                                refs.insert((*p, 0), l);
+                            }
+                            Err(m) => fail!(Failure {
+                                step: idx,
+                                class: "panic".into(),
+                                signature: format!("fresh-service {}", panic_site(&m)),
+                                detail: format!("panic serving `{} {}` on a fresh service: {m}", rq.method, rq.target),
+                            }),
+                        }
+                        out.count("reference_runs", 1);
+                    }
+                    let stash_before = sh.stash.borrow().len();
+                    let (lines, resp) = match svc_send(&svc, &sh, rq).await {
+                        Ok(x) => x,
+                        Err(m) => fail!(Failure {
+                            step: idx,
+                            class: "panic".into(),
+                            signature: format!("svc {}", panic_site(&m)),
+                            detail: format!("panic serving `{} {}` ({}) inside the history: {m}", rq.method, rq.target, rq.kind),
+                        }),
+                    };
+                    let addr = sh.addr.get();
+                    out.addrs.push(addr);
+                    out.evals += 1;
+                    out.count(&format!("route:{}", rq.route), 1);
+                    out.count(&format!("status:{}", resp.status().as_u16()), 1);
+                    out.count("sites_compared", lines.len() as u64);
+                    if addr == 0 {
+                        out.inconclusive.push(format!("request `{} {}` never reached the app middleware", rq.method, rq.target));
+                        continue;
+                    }
+                    let pred = model.arrived(addr, &mut out);
+                    if let Some((pk, _)) = &pred {
+                        out.sigs.insert(format!("{pk}>{}", rq.kind));
+                    }
+                    let stashed = sh.stash.borrow().len() > stash_before;
+                    if stashed {
+                        stash_addrs.push(addr);
+                        out.count("held_by_handler_clone", 1);
+                    }
+                    model.last.insert(addr, (rq.kind.clone(), 0));
+                    model.holders.insert(addr, stashed as u32 + 1);
+                    let reference = &refs[&(*p, 0)];
+                    let diff = compare(&lines, reference);
+                    if *retain {
+                        out.count("held_by_retained_response", 1);
+                        retained.push((resp, addr));
+                    } else {
+                        drop(resp);
+                        model.release(addr, &mut out);
+                    }
+                    out.max("alive_at_once", (retained.len() + stash_addrs.len()) as u64);
+                    if let Some(d) = diff {
+                        fail!(mk_failure(idx, rq, &pred, d, mode));
+                    }
+                }
+                Step::RelStash(i) => {
+                    let n = stash_addrs.len();
+                    if n == 0 {
+                        continue;
+                    }
+                    let idxs: Vec<usize> = if *i == ALL { vec![0; n] } else { vec![*i % n] };
+                    for j in idxs {
+                        let r = sh.stash.borrow_mut().remove(j);
+                        let a = stash_addrs.remove(j);
+                        drop(r);
+                        model.release(a, &mut out);
+                        out.count("released_clone", 1);
+                    }
+                }
+                Step::RelResp(i) => {
+                    let n = retained.len();
+                    if n == 0 {
+                        continue;
+                    }
+                    let idxs: Vec<usize> = if *i == ALL { vec![0; n] } else { vec![*i % n] };
+                    for j in idxs {
+                        let (r, a) = retained.remove(j);
+                        drop(r);
+                        model.release(a, &mut out);
+                        out.count("released_response", 1);
+                    }
+                }
+                Step::Open(_) | Step::Close(_) => {}
+            }
+            // request-local data must not outlive the last handle to its request
+            if retained.is_empty() && stash_addrs.is_empty() {
+                out.count("lifetime_checks", 1);
+                if sh.ext_live.get() != 0 {
+                    out.count("request_data_alive_after_last_handle(observed, not judged)", 1);
+                }
+            }
+        }
+        retained.clear();
+        sh.stash.borrow_mut().clear();
+        out.count("lifetime_checks", 1);
+        if sh.ext_live.get() != 0 {
+            out.count("request_data_alive_after_last_handle(observed, not judged)", 1);
+        }
+        drop(svc);
+    } else {
+        let svc = stack_service(sh.clone()).await;
+        let mut slots: Vec<Option<Conn>> = (0..4).map(|_| None).collect();
+        let mut opened = 0u32;
+        for (idx, step) in case.steps.iter().enumerate() {
+            match step {
+                Step::Open(c) | Step::Close(c) => {
+                    let c = *c % slots.len();
+                    if let Some(mut old) = slots[c].take() {
+                        old.h.eof();
+                        let _ = settle(&mut old.d, 1000).await;
+                        out.count("connections_closed", 1);
+                    }
+                    if matches!(step, Step::Open(_)) {
+                        slots[c] = Some(stack_open(&svc, &sh, opened % 8));
+                        opened += 1;
+                        out.count("connections_opened", 1);
+                    }
+                }
+                Step::Send { p, conn, .. } => {
+                    let Some(rq) = case.palette.get(*p) else { continue };
+                    let c = *conn % slots.len();
+                    if slots[c].is_none() {
+                        slots[c] = Some(stack_open(&svc, &sh, opened % 8));
+                        opened += 1;
+                        out.count("connections_opened", 1);
+                    }
+                    let tag = slots[c].as_ref().unwrap().tag;
+                    if !refs.contains_key(&(*p, tag)) {
+                        match stack_reference(rq, tag).await {
+                            Ok(l) => {
+                                refs.insert((*p, tag), l);
+                            }
+                            Err(m) => fail!(Failure {
+                                step: idx,
+                                class: "panic".into(),
+                                signature: format!("fresh-stack {}", panic_site(&m)),
+                                detail: format!("panic serving `{} {}` on a fresh stack: {m}", rq.method, rq.target),
+                            }),
+                        }
+                        out.count("reference_runs", 1);
+                    }
+                    let stash_before = sh.stash.borrow().len();
+                    let lines = match stack_send(slots[c].as_mut().unwrap(), &sh, rq).await {
+                        Ok(x) => x,
+                        Err(m) => fail!(Failure {
+                            step: idx,
+                            class: "panic".into(),
+                            signature: format!("stack {}", panic_site(&m)),
+                            detail: format!("panic serving `{} {}` ({}) inside the history: {m}", rq.method, rq.target, rq.kind),
+                        }),
+                    };
+                    let addr = sh.addr.get();
+                    out.addrs.push(addr);
+                    out.evals += 1;
+                    out.count(&format!("route:{}", rq.route), 1);
+                    out.count("sites_compared", lines.len() as u64);
+                    if let Some(l) = lines.last() {
+                        out.count(&format!("status:{}", l.rsplit('=').next().unwrap_or("?")), 1);
+                    }
+                    if addr == 0 {
+                        out.inconclusive.push(format!("stack: request `{} {}` never reached the app middleware", rq.method, rq.target));
+                        continue;
+                    }
+                    let pred = model.arrived(addr, &mut out);
+                    if let Some((pk, ptag)) = &pred {
+                        let rel = if *ptag == tag { "same-conn" } else { "other-conn" };
+                        out.sigs.insert(format!("stack:{rel}:{pk}>{}", rq.kind));
+                        out.count(&format!("recycled_from_{rel}"), 1);
+                    }
+                    let stashed = sh.stash.borrow().len() > stash_before;
+                    model.last.insert(addr, (rq.kind.clone(), tag));
+                    model.holders.insert(addr, stashed as u32);
+                    if stashed {
+                        stash_addrs.push(addr);
+                        out.count("held_by_handler_clone", 1);
+                    } else {
+                        model.holders.remove(&addr);
+                        model.dropped(addr, &mut out);
+                    }
+                    out.max("alive_at_once", stash_addrs.len() as u64);
+                    if let Some(d) = compare(&lines, &refs[&(*p, tag)]) {
+                        fail!(mk_failure(idx, rq, &pred, d, mode));
+                    }
+                }
+                Step::RelStash(i) => {
+                    let n = stash_addrs.len();
+                    if n == 0 {
+                        continue;
+                    }
+                    let idxs: Vec<usize> = if *i == ALL { vec![0; n] } else { vec![*i % n] };
+                    for j in idxs {
+                        let r = sh.stash.borrow_mut().remove(j);
+                        let a = stash_addrs.remove(j);
+                        drop(r);
+                        model.release(a, &mut out);
+                        out.count("released_clone", 1);
+                    }
+                }
+                Step::RelResp(_) => {}
+            }
+            if stash_addrs.is_empty() {
+                out.count("lifetime_checks", 1);
+                let open = slots.iter().filter(|s| s.is_some()).count() as i64;
+                if sh.ext_live.get() != 0 {
+                    out.count("request_data_alive_after_last_handle(observed, not judged)", 1);
+                }
+                if sh.conn_live.get() != open {
+                    out.count("request_data_alive_after_last_handle(observed, not judged)", 1);
+                }
+            }
+        }
+        for s in slots.iter_mut() {
+            if let Some(mut c) = s.take() {
+                c.h.eof();
+                let _ = settle(&mut c.d, 1000).await;
+            }
+        }
+        sh.stash.borrow_mut().clear();
+        out.count("lifetime_checks", 1);
+        if sh.ext_live.get() != 0 {
+            out.count("request_data_alive_after_last_handle(observed, not judged)", 1);
+        }
+        if sh.conn_live.get() != 0 {
+            out.count("request_data_alive_after_last_handle(observed, not judged)", 1);
+        }
+        drop(svc);
+    }
+    out
+}
+
+/// Run one case in its own actix System; a panic that escapes the per-request guards (drop of a
+/// request, teardown) is turned into a failure too.
+fn exec(case: &Case) -> Out {
+    let c = case.clone();
+    match pguard(move || run_virtual(run_case(c))) {
+        Ok(o) => o,
+        Err(m) => {
+            let mut o = Out::default();
+            o.failure = Some(Failure {
+                step: case.steps.len().saturating_sub(1),
+                class: "panic".into(),
+                signature: format!("{} outside-request {}", if case.stack { "stack" } else { "svc" }, panic_site(&m)),
+                detail: format!("panic outside a request call (drop / teardown): {m}"),
+            });
+            o
+        }
+    }
+}
+
+/// Greedy chunk removal: keep a candidate if it still fails with the same class and signature.
+fn shrink(ctx: &Ctx, case: &Case, f: &Failure) -> (Case, Failure) {
+    let mut cur = Case { stack: case.stack, palette: case.palette.clone(), steps: case.steps[..=f.step.min(case.steps.len() - 1)].to_vec() };
+    let mut curf = f.clone();
+    curf.step = cur.steps.len() - 1;
+    // most leaks come from a recent predecessor: look for the shortest failing suffix first
+    let mut w = 1;
+    while w < cur.steps.len() - 1 && !ctx.out_of_time() {
+        let cand = Case { stack: cur.stack, palette: cur.palette.clone(), steps: cur.steps[cur.steps.len() - 1 - w..].to_vec() };
+        if let Some(g) = exec(&cand).failure {
+            if g.class == f.class && g.signature == f.signature {
+                let mut cand = cand;
+                cand.steps.truncate(g.step + 1);
+                cur = cand;
+                curf = g;
+                break;
+            }
+        }
+        w *= 2;
+    }
+    let mut runs = 0;
+    let mut chunk = (cur.steps.len() / 2).max(1);
+    loop {
+        let mut i = 0;
+        let mut progress = false;
+        // the final (failing) step is never removed
+        while i + chunk < cur.steps.len() && runs < 120 && !ctx.out_of_time() {
+            let mut cand = cur.clone();
+            cand.steps.drain(i..i + chunk);
+            runs += 1;
+            match exec(&cand).failure {
+                Some(g) if g.class == f.class && g.signature == f.signature => {
+                    cand.steps.truncate(g.step + 1);
+                    cur = cand;
+                    curf = g;
+                    progress = true;
+                }
+                _ => i += chunk,
+            }
+        }
+        if runs >= 120 || ctx.out_of_time() {
+            break;
+        }
+        if chunk == 1 {
+            if !progress {
+                break;
+            }
+        } else {
+            chunk /= 2;
+        }
+    }
+    (cur, curf)
+}
+
+fn describe(case: &Case) -> String {
+    let mut s = String::new();
+    for st in &case.steps {
+        match st {
+            Step::Send { p, retain, conn } => {
+                if let Some(rq) = case.palette.get(*p) {
+                    let hs: Vec<String> = rq.headers.iter().filter(|(k, _)| k.starts_with("x-")).map(|(k, v)| format!("{k}={v}")).collect();
+                    s.push_str(&format!(
+                        "{} {} [{}]{}{}; ",
+                        rq.method,
+                        rq.target,
+                        hs.join(","),
+                        if *retain { " (response kept)" } else { "" },
+                        if case.stack { format!(" conn#{conn}") } else { String::new() }
+                    ));
+                }
+            }
+            other => s.push_str(&format!("{:?}; ", other)),
+        }
+    }
+    s
+}
+
+fn merge(rep: &mut Reporter, o: &Out) {
+    for (k, v) in &o.counters {
+        rep.count(k, *v);
+    }
+    for (k, v) in &o.maxes {
+        rep.max(k, *v);
+    }
+    for s in &o.sigs {
+        rep.sig(s);
+    }
+    for _ in 0..o.evals {
+        rep.eval();
+    }
+    for m in &o.inconclusive {
+        rep.inconclusive(m);
+    }
+}
+
+fn report(ctx: &Ctx, rep: &mut Reporter, case: &Case, f: &Failure, reported: &mut HashSet<(String, String)>) {
+    let key = (f.class.clone(), f.signature.clone());
+    if !reported.insert(key) {
+        rep.violation(&f.class, &f.signature, &f.detail, json!({}));
+        return;
+    }
+    let (small, sf) = if reported.len() <= 4 { shrink(ctx, case, f) } else { (case.clone(), f.clone()) };
+    // palette entries that are no longer referenced are dropped from the witness
+    let used: Vec<usize> = {
+        let mut u: Vec<usize> = small.steps.iter().filter_map(|s| if let Step::Send { p, .. } = s { Some(*p) } else { None }).collect();
+        u.sort_unstable();
+        u.dedup();
+        u
+    };
+    let remap: HashMap<usize, usize> = used.iter().enumerate().map(|(n, &o)| (o, n)).collect();
+    let compact = Case {
+        stack: small.stack,
+        palette: used.iter().filter_map(|&i| small.palette.get(i).cloned()).collect(),
+        steps: small
+            .steps
+            .iter()
+            .map(|s| match s {
+                Step::Send { p, retain, conn } => Step::Send { p: *remap.get(p).unwrap_or(&0), retain: *retain, conn: *conn },
+                o => o.clone(),
+            })
+            .collect(),
+    };
+    rep.violation(
+        &f.class,
+        &f.signature,
+        &format!("{} — minimal history ({} steps): {}", sf.detail, compact.steps.len(), describe(&compact)),
+        compact.to_json(),
+    );
+}
+
+/// Pool fingerprint: n live requests released in a random order must come back in exactly the
+/// reverse order.  Returns (matches, n).
+fn fingerprint(ctx: &Ctx, rng: &mut Rng, n: usize, rep: &mut Reporter, reported: &mut HashSet<(String, String)>) -> (usize, usize) {
+    let palette = vec![
+        Rq {
+            method: "GET".into(),
+            target: "/u/fp".into(),
+            version: 0,
+            headers: vec![("host".into(), "h1.test".into())],
+            peer: None,
+            pre_ext: false,
+            kind: "user".into(),
+            route: "user".into(),
+        },
+        Rq {
+            method: "GET".into(),
+            target: "/s1/r/fp".into(),
+            version: 0,
+            headers: vec![("host".into(), "h1.test".into()), ("x-h-ext".into(), "7".into())],
+            peer: None,
+            pre_ext: false,
+            kind: "s1r+x".into(),
+            route: "s1r".into(),
+        },
+    ];
+    let mut steps = vec![];
+    for i in 0..n {
+        steps.push(Step::Send { p: i % 2, retain: true, conn: 0 });
+    }
+    // release in a random permutation; expected[j] = index (into the first n sends) of the object
+    // that the j-th send of the second round must run on
+    let mut remaining: Vec<usize> = (0..n).collect();
+    let mut released = vec![];
+    while !remaining.is_empty() {
+        let j = rng.below(remaining.len());
+        steps.push(Step::RelResp(j));
+        released.push(remaining.remove(j));
+    }
+    for i in 0..n {
+        steps.push(Step::Send { p: (i + 1) % 2, retain: true, conn: 0 });
+    }
+    let case = Case { stack: false, palette, steps };
+    let o = exec(&case);
+    merge(rep, &o);
+    if o.failure.is_some() || o.addrs.len() != 2 * n {
+        if let Some(f) = &o.failure {
+            report(ctx, rep, &case, f, reported);
+        }
+        return (0, n);
+    }
+    // the pool keeps the first `kept` objects released and hands them back last-in first-out
+    let kept = n.min(POOL_CAP);
+    let mut m = 0;
+    for j in 0..kept {
+        let expect = o.addrs[released[kept - 1 - j]];
+        if o.addrs[n + j] == expect {
+            m += 1;
+        }
+    }
+    (m, kept)
+}
+
+pub fn run(ctx: &Ctx, rep: &mut Reporter) {
+    let mut reported: HashSet<(String, String)> = HashSet::new();
+
+    if let Some(rp) = &ctx.replay {
+        if let Some(case) = Case::from_json(rp) {
+            let o = exec(&case);
+            merge(rep, &o);
+            if let Some(f) = &o.failure {
+                report(ctx, rep, &case, f, &mut reported);
+            }
+        } else {
+            rep.inconclusive("replay file is not a C11 case");
+        }
+        rep.sig("replay");
+        rep.sig("replay2");
+        return;
+    }
+
+    // Phase 0: is the pool really recycling?  (confirmed, not assumed)
+    {
+        let mut rng = Rng::derive(ctx.seed, 0xC11F, ctx.shard);
+        let n = if ctx.is_miri() { 12 } else { 40 };
+        let (m, n) = fingerprint(ctx, &mut rng, n, rep, &mut reported);
+        rep.count("fingerprint_objects", n as u64);
+        rep.count("fingerprint_lifo_matches", m as u64);
+        if m * 10 < n * 9 {
+            rep.inconclusive(&format!(
+                "pool reuse not confirmed: only {m} of {n} requests came back on the allocation a LIFO pool predicts (address of match_info())"
+            ));
+        }
+        // capacity probe: more live requests than the pool holds
+        if !ctx.is_miri() {
+            let (m2, n2) = fingerprint(ctx, &mut rng, POOL_CAP + 12, rep, &mut reported);
+            rep.count("capacity_probe_objects", n2 as u64);
+            rep.count("capacity_probe_matches", m2 as u64);
+        }
+    }
+
+    // Phase 1: random histories, service level (svc) and full stack (stack)
+    let total = if ctx.is_miri() { 3 } else { ctx.share(10_000, 160_000) };
+    let mut k = 0u64;
+    while k < total {
+        if ctx.out_of_time() {
+            break;
+        }
+        let mut rng = Rng::derive(ctx.seed, 0xC11, k * ctx.nshards + ctx.shard);
+        let stack = k % 4 == 3;
+        let case = gen_case(&mut rng, stack, ctx.is_miri());
+        let o = exec(&case);
+        merge(rep, &o);
+        if let Some(f) = &o.failure {
+            report(ctx, rep, &case, f, &mut reported);
+        }
+        if k == 0 || k == 3 {
+            let mut small = case.clone();
+            small.steps.truncate(12);
+            rep.sample(if stack { "stack-history(first 12 steps)" } else { "svc-history(first 12 steps)" }, json!(describe(&small)));
+        }
+        k += 1;
+    }
+    rep.count("histories", k);
+    if rep.get("recycled_confirmed") == 0 {
+        rep.inconclusive("no request ran on a recycled allocation");
+    }
 }
